@@ -208,7 +208,6 @@ class OutboxRelay(Entity):
         # Collect pending entries up to batch_size
         pending = [e for e in self._entries if not e.relayed][: self._batch_size]
 
-        relay_events: list[Event] = []
         for entry in pending:
             entry.relayed = True
             self._entries_relayed += 1
@@ -219,24 +218,29 @@ class OutboxRelay(Entity):
             if lag > self._relay_lag_max:
                 self._relay_lag_max = lag
 
-            relay_events.append(
-                Event(
-                    time=self.now,
-                    event_type="outbox_relay",
-                    target=self._downstream,
-                    context={
-                        "metadata": {
-                            "outbox_name": self.name,
-                            "entry_id": entry.entry_id,
-                        },
-                        "payload": entry.payload,
-                    },
-                )
-            )
-
             # Simulate relay latency between entries
             if self._relay_latency > 0:
                 yield self._relay_latency
+
+        # The relay events are handed to the simulation when this generator
+        # returns, i.e. after the latency waits above: stamp them with the
+        # current time (an event stamped before a wait would lie in the past
+        # and be dropped by the simulation).
+        relay_events: list[Event] = [
+            Event(
+                time=self.now,
+                event_type="outbox_relay",
+                target=self._downstream,
+                context={
+                    "metadata": {
+                        "outbox_name": self.name,
+                        "entry_id": entry.entry_id,
+                    },
+                    "payload": entry.payload,
+                },
+            )
+            for entry in pending
+        ]
 
         logger.debug(
             "[%s] Poll cycle: relayed %d entries, %d remaining",
